@@ -183,8 +183,6 @@ func TestVerifMcc(t *testing.T) {
 			vcScenario(lines, func(s string) { buf = append(buf, s) })
 		}()
 		results[i] = buf
-	}
-	for i, buf := range results {
-		emit(i, buf)
+		emit(i, buf) // at once: the output tells which scenario was running if the process dies
 	}
 }
